@@ -680,6 +680,10 @@ func (g *gen) query() Query {
 			}
 		}
 	}
+	if q.Filter != nil && chance(t, "orderByDocID", 12) {
+		// the document id as the only order key, next to a (possibly index-served) filter
+		q.Order = []Ord{{F: "_docID", Desc: chance(t, "docIDdesc", 30)}}
+	}
 	q.ShowDeleted = chance(t, "showdeleted", 10)
 	if chance(t, "docids", 8) {
 		n := rapid.IntRange(1, 3).Draw(t, "ndocids")
